@@ -25,10 +25,17 @@ IEEE half): a context taken from the wrong place changes the result.
                   statement, two statements, loop + top level, chain through a helper,
                   both inside the helper, 3-chain) x {2, 3 callees} x {different, same}
 
+  pinned  (monomorphize): caller and/or callees DECLARE a pool format under a non-default
+                  rounding mode (RTZ/RTP/RTN; binary16 also with overflow mode SATURATE):
+                  format {mp3, ieee16, ieee16sat, fixed} x mode x who pins {caller, both,
+                  callee, chain} x caller body {expr, for}; monomorphized against every pool
+                  context and every same-format context of each rounding mode
+
 A program is described by a tuple (picklable, JSON-able):
   ('pair', gctx, gbody, position, argform)
   ('chain', gctx, gchain, hctx, hbody, position)
   ('fact', gctx, fbody, layout, ncallees, variant)
+  ('pin', fmt, mode, who, position)
 and `build(desc)` returns its source text.
 """
 
@@ -232,10 +239,90 @@ def all_facts() -> list[tuple]:
     return out
 
 
+# ---- pinned family: declared contexts that differ from a request only in their modes ------
+
+PIN_FORMATS = {
+    'mp3': 'fp.MPFloatContext(3, fp.RM.{rm})',
+    'ieee16': 'fp.IEEEContext(5, 16, fp.RM.{rm})',
+    'ieee16sat': 'fp.IEEEContext(5, 16, fp.RM.{rm}, fp.OV.SATURATE)',
+    'fixed': 'fp.MPFixedContext(-3, fp.RM.{rm})',
+}
+# the same number format under the default overflow mode (what a request names)
+PIN_REQUEST_FORMATS = dict(PIN_FORMATS, ieee16sat=PIN_FORMATS['ieee16'])
+PIN_MODES = {'mp3': ('RTZ', 'RTP', 'RTN'), 'ieee16': ('RTZ', 'RTP', 'RTN'),
+             'ieee16sat': ('RNE', 'RTZ', 'RTP'), 'fixed': ('RTZ', 'RTP', 'RTN')}
+PIN_REQUEST_MODES = ('RNE', 'RTZ', 'RTP', 'RTN')
+PIN_WHO = ('caller', 'both', 'callee', 'chain')
+PIN_POSITIONS = ('expr', 'for')
+
+
+def _other_mode(mode: str) -> str:
+    return {'RTZ': 'RTP', 'RTP': 'RTN', 'RTN': 'RTZ', 'RNE': 'RTZ'}[mode]
+
+
+def _pin_fn(name, ctx, lines, caller=False):
+    deco = '@fp.fpy' if ctx is None else f'@fp.fpy(ctx={ctx})'
+    body = '\n'.join('    ' + ln for ln in lines)
+    if caller:
+        return f'{deco}\ndef f(u: fp.Real, v: fp.Real, us: list[fp.Real], n: fp.Real):\n{body}\n'
+    return f'{deco}\ndef {name}(x: fp.Real, xs: list[fp.Real]) -> fp.Real:\n{body}\n'
+
+
+def _build_pin(desc) -> str:
+    _, fmt, mode, who, position = desc
+    own = PIN_FORMATS[fmt].format(rm=mode)
+    other = PIN_FORMATS[fmt].format(rm=_other_mode(mode))
+    lines, ret = POSITIONS[position](ARGFORMS['A0'])
+    src = f'K = {K_VALUE}\nKF = {KF_VALUE}\nKG = {KG_VALUE}\n\n'
+    if who == 'chain':
+        src += _pin_fn('h', other, ['return x * x + x']) + '\n'
+        src += _pin_fn('g', None, ['a = h(x, xs)', 'return a * x + a']) + '\n'
+    else:
+        gctx = {'caller': None, 'both': other, 'callee': own}[who]
+        src += _pin_fn('g', gctx, ['return x * x + x']) + '\n'
+    src += _pin_fn('f', None if who == 'callee' else own, lines + [ret], caller=True)
+    return src
+
+
+def pin_requests(desc, pool: list) -> list[str]:
+    """Contexts a pinned program is monomorphized against: the pool, and the
+    program's own number format under every rounding mode."""
+    fmt = desc[1]
+    out = [c for c in pool if c is not None]
+    for rm in PIN_REQUEST_MODES:
+        c = PIN_REQUEST_FORMATS[fmt].format(rm=rm)
+        if c not in out:
+            out.append(c)
+    return out
+
+
+def all_pins() -> list[tuple]:
+    out = []
+    for position in PIN_POSITIONS:
+        for who in PIN_WHO:
+            for fmt in PIN_FORMATS:
+                for mode in PIN_MODES[fmt]:
+                    out.append(('pin', fmt, mode, who, position))
+    return out
+
+
+# inputs on which every operation of the pinned programs is inexact under the small
+# formats (10-bit fractions, both signs; the last overflows binary16)
+INPUTS_PIN = [
+    ('1365/1024', '2781/1024', ['1195/1024', '717/1024'], '2'),
+    ('-1365/1024', '2781/1024', ['-1195/1024', '717/1024'], '2'),
+    ('2781/1024', '-1365/1024', ['3413/1024', '-1707/1024', '853/1024'], '3'),
+    ('-5461/2048', '-683/512', ['-2389/1024', '-1451/1024'], '2'),
+    ('307507/1024', '256717/1024', ['269/1024', '1195/1024'], '2'),
+]
+
+
 def build(desc) -> str:
     """Source text of the program `desc` (module body after the loader prelude)."""
     if desc[0] == 'fact':
         return _build_fact(desc)
+    if desc[0] == 'pin':
+        return _build_pin(desc)
     head = f'K = {K_VALUE}\nKF = {KF_VALUE}\nKG = {KG_VALUE}\n\n'
     if desc[0] == 'pair':
         _, gctx, gbody, position, argform = desc
@@ -256,6 +343,10 @@ def describe(desc) -> dict:
         _, gctx, gbody, position, argform = desc
         return {'position': position, 'inner': '-', 'effect': effect_of([gbody]),
                 'callee': gbody, 'callee_ctx': gctx, 'args': argform}
+    if desc[0] == 'pin':
+        _, fmt, mode, who, position = desc
+        return {'position': f'pin_{position}', 'inner': f'{who}-pins', 'effect': 'pure',
+                'callee': 'arith', 'callee_ctx': f'{fmt}/{mode}', 'args': 'A0'}
     if desc[0] == 'fact':
         _, gctx, fbody, layout, n, variant = desc
         return {'position': f'fact_{layout}', 'inner': f'{n}-callees-{variant}', 'effect': 'reads-captured',
